@@ -907,8 +907,15 @@ theorem recreated_checker_no_spurious_change (s : HealthShare.St) (k : Cid) (u h
     rw [HealthLifecycle.step_bad _ _ _ _ _ r hr]
     cases (s.w.words a).active <;> simp [Result.bad, hr] <;> (have ht' : s'.w.thr k = effThr u h := ht; rw [ht']; omega)
 
-/-- the model's observations always satisfy the property predicate the driver applies to the implementation (kind sh) -/
-theorem unchecked_update_breaks_predicate_witness :
+/-- the model's observations always satisfy the property predicate the driver applies to the implementation (kind sh),
+for every configuration, all initial words and EVERY list of cluster-manager operations -/
+theorem spec_holds_on_model_sh (m n : Nat) (checked : Cid → Bool) (cfg : Cid → Nat × Nat) (words0 : Addr → Word) (ops : List SOp) :
+    HealthShare.holds m n checked cfg words0 ops (HealthShare.trace m (HealthShare.St.init checked cfg words0) ops) = true :=
+  HealthShare.holdsFrom_trace m n _ ops (HealthShare.St.init checked cfg words0) _
+    (HealthLifecycle.sim_init _ cfg words0) (fun _ h => h)
+
+/-- **unchecked_update_clearing_heals_without_success** (negation witness for class (i)) -/
+theorem unchecked_update_clearing_heals_without_success :
     -- NEGATION WITNESS for class (i): cluster 0 (thresholds 1/2) marks address 0 with one failed check; cluster 1 has NO
     -- health checker and lists the same address.  If its host update cleared FAILED_ACTIVE_HC "as a stale mark"
     -- (what is SEEN is word 0 after `update 1 [0]`), the host would be healthy again with zero successful checks:
